@@ -1043,7 +1043,9 @@ class DcmMetaExtension(Nifti1Extension):
                 if classes[1] == 'slices':
                     other_slc_meta[classes] = other.get_class_dict(classes)
                     other._content[classes[0]][classes[1]] = {}
-        missing_keys = list(set(self.get_keys()) - set(other.get_keys()))
+        other_key_set = set(other.get_keys())
+        missing_keys = [key for key in self.get_keys()
+                        if key not in other_key_set]
         for other_classes in other.get_valid_classes():
             other_keys = list(other.get_class_dict(other_classes).keys())
 
